@@ -16,11 +16,20 @@ ASSUMPTIONS = ['helper rules are compared after inlining (rule cache sharing is 
 IMPORTS = 'From LV Require Import Base.Prelude Gen.Consts Gen.SmallFactors Ebnf.Repeat.'
 
 
-def to_rexp(node, rules, atom, stack=()):
+class TooLarge(Exception):
+    pass
+
+
+def to_rexp(node, rules, atom, stack=(), budget=None):
     from lark.tree import Tree
     from lark.grammar import NonTerminal
+    if budget is None:
+        budget = [200000]
+    budget[0] -= 1
+    if budget[0] < 0:
+        raise TooLarge('inlined helper-rule tree exceeds 200000 nodes')
     if isinstance(node, Tree):
-        kids = [to_rexp(c, rules, atom, stack) for c in node.children]
+        kids = [to_rexp(c, rules, atom, stack, budget) for c in node.children]
         if node.data == 'expansions':
             return 'alt_of ' + L(kids)
         if node.data == 'expansion':
@@ -35,10 +44,10 @@ def to_rexp(node, rules, atom, stack=()):
                 and len(tree.children[0].children) == 1 and len(tree.children[1].children) == 2
                 and tree.children[1].children[0] == node
                 and tree.children[0].children[0] == tree.children[1].children[1]):
-            return '(Rec %s)' % to_rexp(tree.children[0].children[0], rules, atom, stack)
+            return '(Rec %s)' % to_rexp(tree.children[0].children[0], rules, atom, stack, budget)
         if node.name in stack:
             raise ValueError('unexpected recursion in helper ' + node.name)
-        return '(%s)' % to_rexp(tree, rules, atom, stack + (node.name,))
+        return '(%s)' % to_rexp(tree, rules, atom, stack + (node.name,), budget)
     raise ValueError('unexpected symbol %r' % (node,))
 
 
@@ -50,7 +59,10 @@ def impl_repeat(mn, mx):
     t = e._generate_repeats(x, mn, mx)
     rules = {n: tr for n, tr, _ in e.new_rules}
     names = list(rules)
-    return '(%s)' % to_rexp(t, rules, x), names
+    try:
+        return '(%s)' % to_rexp(t, rules, x), names
+    except TooLarge:
+        return None, names
 
 
 def count_semantics(mn, mx, kmax):
@@ -175,7 +187,17 @@ def run_e2e(ctx, g, unit, per, n, m, kind, parsers=('earley', 'lalr')):
 SPECIAL = 'ab()[]|.*+?-^$xy{}'
 
 
-def gen_texpr(rng, depth=0):
+def gen_texpr(rng, depth=0, alphabet=None):
+    if depth == 0 and alphabet is None and rng.random() < 0.35:
+        # operator applied to a sequence of alternation groups over regexp-special characters
+        ab = rng.choice(['()', '()[]', '[]|', '(){}', '\\\\()'])
+        groups = [('alt', [('lit', rng.choice(ab)) for _ in range(rng.randint(2, 3))]) for _ in range(rng.randint(2, 3))]
+        if rng.random() < 0.5:
+            groups[0] = ('alt', [('lit', '('), ('lit', rng.choice(ab))])
+            groups[-1] = ('alt', [('lit', ')'), ('lit', rng.choice(ab))])
+        lo = rng.randint(0, 2)
+        return rng.choice([('rep', ('seq', groups), lo, lo + rng.randint(0, 2)), ('rep', ('seq', groups), 1, None),
+                           ('seq', [('rep', ('seq', groups), 0, 1), ('lit', 'x')])])
     r = rng.random()
     if depth >= 3 or r < 0.35:
         n = rng.randint(1, 2)
@@ -346,8 +368,13 @@ def correspond(ctx):
                           '_generate_repeats(x,%d,%d) raised' % (n, m))
             continue
         ctx.count('repeat-structure', key=(n, m), nontrivial=m >= 2, scheme='naive' if not names else 'factored')
-        cases.append('(%s, %s, %s)' % (Z(n), Z(m), term))
-        meta.append((n, m, names))
+        if term is None:
+            ctx.violation('correspondence:Ebnf/Repeat.generate_repeats vs EBNF_to_BNF._generate_repeats',
+                          {'no_longer_checks': 'helper-rule structure agreement (tree too large to compare)', 'n': n, 'm': m},
+                          False, 'compiled rule structure for x~%d..%d is implausibly large' % (n, m))
+        else:
+            cases.append('(%s, %s, %s)' % (Z(n), Z(m), term))
+            meta.append((n, m, names))
         # the property itself on the implementation's rules
         kmax = m + 3
         got = count_semantics(n, m, kmax)
